@@ -14,7 +14,7 @@
    Section CliStatements (Proofs/CliP.v, over Model/Select.v Section Cli): the command line in front of the selection --
    no argument that is a name is dropped (the empty string, blanks, near-miss names are names), `x=y` arguments and
    only those are taken out, default_tasks only when nothing is named, unknown names rejected from the command line down. *)
-From DoitV Require Import Base Select SelectP CliP.
+From DoitV Require Import Base Select SelectP CliP SelectSingleP.
 Open Scope N_scope.
 
 Section Statements.
@@ -236,6 +236,39 @@ Proof.
   exact (conj F (conj P (conj S (conj G O)))).
 Qed.
 Print Assumptions C12_single.
+
+(* --single across group borders (round G, seeded C12g), in the terms of the declarations, any table, any selection:
+   whatever a selected group still depends on was in its task_dep AND is declared a sub-task of that very group
+   (subtask_of = the group; a sub-task of ANOTHER group never survives, by whatever spelling -- name, `h:*`, `*:x` --
+   it came into the group's task_dep); and a task that is neither selected nor declared a sub-task of a selected group
+   keeps its task_dep unchanged, whichever selected groups name it in theirs. *)
+Theorem C12_single_group_border : forall tb sel,
+  (forall g t d, In g sel -> lookup tb g = Some t -> s_has_subtask t = true ->
+     In d (task_dep_of (single_step tb sel) g) ->
+     In d (s_task_dep t) /\ exists td, lookup tb d = Some td /\ s_subtask_of td = Some g) /\
+  (forall k, ~ In k sel -> (forall g, In g sel -> is_sub_of tb g k = false) ->
+     task_dep_of (single_step tb sel) k = task_dep_of tb k).
+Proof. exact single_group_border. Qed.
+Print Assumptions C12_single_group_border.
+
+(* non-vacuity: 0 'prep'  10 'h'  11 'h:x' (task_dep prep)  1 'g' (task_dep h:x, then its own g:a, g:b)  2 'g:a' (task_dep
+   prep)  3 'g:b'.  --single g: g keeps g:a, g:b and not h:x; g:a lost prep; h:x keeps prep; both hypotheses of the second
+   part hold for h:x. *)
+Example C12_example_single_group_border :
+  let tb := [(0, Build_stask [] [] [] [] [] [] false None None false []);
+             (10, Build_stask [11] [] [] [] [] [] true None None false []);
+             (11, Build_stask [0] [] [] [] [] [] false (Some 10) None false []);
+             (1, Build_stask [11; 2; 3] [] [] [] [] [] true None None false []);
+             (2, Build_stask [0] [] [] [] [] [] false (Some 1) None false []);
+             (3, Build_stask [] [] [] [] [] [] false (Some 1) None false [])] in
+  task_dep_of (single_step tb [1]) 1 = [2; 3] /\ task_dep_of (single_step tb [1]) 2 = [] /\
+  task_dep_of (single_step tb [1]) 11 = [0] /\ ~ In 11 [1] /\ (forall g, In g [1] -> is_sub_of tb g 11 = false) /\
+  task_dep_of (single_step tb [1; 10]) 11 = [] /\ task_dep_of (single_step tb [1; 10]) 1 = [2; 3].
+Proof.
+  vm_compute. repeat split; try reflexivity.
+  - intros [H|[]]; discriminate H.
+  - intros g [<-|[]]. reflexivity.
+Qed.
 
 (* ================================================================== the command line in front of the selection
    Model/Select.v Section Cli (DoitMain.process_args / run, the option parser of `doit run`), Proofs/CliP.v.
